@@ -3,6 +3,7 @@ import AquaVerif.Drv.RainPartition
 import AquaVerif.Drv.RootZone
 import AquaVerif.Drv.WaterStress
 import AquaVerif.Drv.Drainage
+import AquaVerif.Drv.Response
 import AquaVerif.Drv.Transpiration
 import AquaVerif.Drv.SoilBuild
 import AquaVerif.Drv.SoilEvaporation
@@ -41,6 +42,12 @@ def handlers : List (String × Handler) := [
   ("init_wc", hInitWC),
   ("gw_series", hGwSeries),
   ("transpiration", hTranspiration),
+  ("temperature_stress", hTemperatureStress),
+  ("growing_degree_day", hGrowingDegreeDay),
+  ("cc_development", hCcDevelopment),
+  ("cc_required_time", hCcRequiredTime),
+  ("fco2_init", hFco2Init),
+  ("fco2_reset", hFco2Reset),
   ("clock", hClock),
   ("clock_calls", hClockCalls),
   ("calendar", hCalendar),
